@@ -368,14 +368,25 @@ def check2(prop, tier, seed, plugin, report, driver, t0):
     if escalate and not any((property_fails(r) and match_known(known, r['line']) is None) or 'impl!=model' in r['kinds'] or 'harness' in r['kinds'] for r in results) \
             and not report['broken_obligations'] and not report['tie_broken']:
         # an anchored source file changed and the quick stream saw nothing: look again with the thorough generators
-        extra = []
+        # (time-boxed: VERIF_ESCALATE_S seconds, default 180; evaluated in chunks so that a hit ends it at once)
+        budget = float(os.environ.get('VERIF_ESCALATE_S', '180'))
+        t_esc, n_esc, chunk = time.time(), 0, []
+        def flush():
+            nonlocal results, lines, chunk, n_esc
+            if not chunk: return False
+            rs = evaluate(plugin, driver, chunk)
+            results += rs; lines += chunk; n_esc += len(chunk); chunk = []
+            return any(property_fails(r) or 'impl!=model' in r['kinds'] or 'harness' in r['kinds'] for r in rs)
+        hit = False
         for line, tag in plugin.cases('thorough', random.Random(seed)):
+            if line in seen: continue
             tags['esc:' + tag] = tags.get('esc:' + tag, 0) + 1
-            if line not in seen:
-                seen.add(line); extra.append(line)
-        results += evaluate(plugin, driver, extra)
-        lines += extra
-        report['escalated'] = len(extra)
+            seen.add(line); chunk.append(line)
+            if len(chunk) >= 5000:
+                hit = flush()
+                if hit or time.time() - t_esc > budget: break
+        if not hit and time.time() - t_esc <= budget: flush()
+        report['escalated'] = n_esc
     harness = [r for r in results if 'harness' in r['kinds']]
     if harness:
         log('INFRA: harness failure on %d lines, first: %r' % (len(harness), harness[0]))
